@@ -730,6 +730,48 @@ def run_line(line):
         except (OverflowError, ValueError, ZeroDivisionError):
             return 'SKIP'          # an intermediate leaves the double range (cos(inf)): no object to print
         return repr_tokens(repr(ld))
+    if cmd == 'OPCHAIN':
+        # a running total built with + (or *), link by link, against the named constructors: at EVERY length the operator
+        # result is Add(previous, term) / Multiply(previous, term), nothing flattened, nothing edited in place
+        k = int(ts[1])
+        terms = [X.Variable('v%d' % (2 + i % 3)) if i % 4 else X.Constant(i + 1) for i in range(k)]
+        for name, fn, ctor in (('+', lambda a_, b_: a_ + b_, X.Add), ('*', lambda a_, b_: a_ * b_, X.Multiply)):
+            tot_op, tot_ct = terms[0], terms[0]
+            for i in range(1, k):
+                prev_repr = None if i % 37 else repr(tot_op)
+                new_op = fn(tot_op, terms[i])
+                new_ct = ctor(tot_ct, terms[i])
+                if new_op.__class__ is not new_ct.__class__ or len(new_op._inners) != 2 or new_op._inners[0] is not tot_op \
+                        or new_op._inners[1] is not terms[i]:
+                    return 'bad: after %d consecutive %s the operator result is not %s(previous, term): %d operands' % (
+                        i, name, ctor.__name__, len(new_op._inners))
+                if prev_repr is not None and repr(tot_op) != prev_repr:
+                    return 'bad: %s edited its left operand in place (link %d)' % (name, i)
+                tot_op, tot_ct = new_op, new_ct
+            if not (tot_op == tot_ct) or hash(tot_op) != hash(tot_ct):
+                return 'bad: a chain of %d %s is not equal to the nested constructor calls' % (k, name)
+        return 'ok'
+    if cmd == 'WIDEEQ':
+        # equality, hashing and printing of n-ary nodes with MANY operands (beyond CPython's small-int cache, 257+)
+        k = int(ts[1])
+        for ctor in (X.Add, X.Multiply):
+            mk = lambda: ctor(*[X.Variable('v%d' % (2 + i % 5)) if i % 3 else X.Constant(i) for i in range(k)])   # noqa: E731
+            a_, c_ = mk(), mk()
+            d_ = ctor(*(list(a_._inners) + [X.Constant(1)]))
+            if not (a_ == a_) or not (a_ == c_) or not (c_ == a_) or (a_ != c_) or hash(a_) != hash(c_) or c_ not in {a_}:
+                return 'bad: two %s nodes built from %d equal operands compare unequal / hash differently' % (ctor.__name__, k)
+            if a_ == d_ or d_ == a_:
+                return 'bad: %s nodes of %d and %d operands compare equal' % (ctor.__name__, k, k + 1)
+            try:
+                back = eval(repr(a_), dict(PUBLIC))
+            except Exception as ex:  # noqa: BLE001
+                return 'bad: repr of a %d-operand %s does not evaluate (%s)' % (k, ctor.__name__, type(ex).__name__)
+            if not (back == a_) or repr(back) != repr(a_) or repr(a_) == repr(d_) or str(a_) != repr(a_):
+                return 'bad: repr of a %d-operand %s does not read back equal' % (k, ctor.__name__)
+            p1, p2 = Partial(a_, 'v2'), Partial(c_, 'v2')
+            if not (p1 == p2) or hash(p1) != hash(p2):
+                return 'bad: Partials of equal %d-operand nodes compare unequal' % k
+        return 'ok'
     if cmd == 'AUGASSIGN':
         # augmented assignment (s += t ...) on a name bound to an existing expression must build a new node, like s + t:
         # the old object, every alias of it and every tree containing it keep their meaning
